@@ -80,7 +80,7 @@ func loadAll(repo, extDir string, patterns []string) (*Session, error) {
 func hasContractComments(f *ast.File) bool {
 	for _, cg := range f.Comments {
 		for _, c := range cg.List {
-			if strings.HasPrefix(c.Text, "//@") {
+			if isContractComment(c.Text) {
 				return true
 			}
 		}
@@ -98,6 +98,9 @@ func main() {
 		cmdFn(os.Args[2:])
 	case "gen":
 		cmdGen(os.Args[2:])
+	case "helpers":
+		// govc helpers <pkgname> [notag]: prints the helper file for a package
+		fmt.Print(HelperFileText(os.Args[2], len(os.Args) < 4))
 	case "check":
 		cmdCheck(os.Args[2:])
 	default:
